@@ -22,6 +22,15 @@ R08.7 zero length: under the entry assumption len = 0 (the length argument of th
 R08.8 masked tails are read as they are written: in every body with (in, out), an input load whose address shape,
       offset and size equal those of output stores that are all confined by an opmask is itself masked - an unmasked
       load there reads up to a vector's width of bytes the function does not treat as data (lib/inplace.py forms).
+R08.9 variable-length bounds on the length skeleton (lib/lenrun.py): for every body with (in, out, len) and every
+      length of a dense range (1..299 quick, 1..699 thorough; multiples of 16 for CBC, from 16 for XTS; for the GCM
+      update bodies also with a pending partial block of 1, 8 and 15 bytes), constant propagation with branch
+      folding over the scalar arguments follows the path(s) that length selects and every unmasked access whose
+      address is `in + k` / `out + k` must satisfy 0 <= k and k + size <= len.  Branches that depend on data are
+      taken both ways; a run that cannot be followed is counted as not judged, never as a violation.
+R08.10 hash kernels read whole blocks only: for every kernel the assembly managers call, with 1..4 blocks and every
+      lane pointer of the argument block taken as a distinct buffer, the length skeleton's accesses through a lane
+      pointer lie within [0, blocks * block size) - no software-pipelined load of a block that does not exist.
 R08.3 rolling-hash window: in _rolling_hash2_run every address of the form buffer - w / buffer + i - w is computed
       only after the first loop has exited normally (i >= w), before that the window comes from state->history.
 """
@@ -38,6 +47,7 @@ import c12
 import c19
 import valset
 import inplace
+import lenrun
 from report import Finding
 
 LEVEL = "other"
@@ -131,6 +141,63 @@ def worker(lib, objname, extra):
                 add("R08.7", name, "len=0", "with len = 0 `%s` stays reachable and %s memory through the %s argument (%d such access(es)): a zero-length call must touch neither buffer" % (i.text.strip(), "writes" if i.writes_mem_operand() else "reads", bufregs[hit[0]], len(badz)), i.addr, key[1])
             else:
                 out["zero_len_ok"] = out.get("zero_len_ok", 0) + 1
+        # ---- R08.9 bounds on the length skeleton
+        if lenreg and len(bufregs) == 2:
+            thorough = extra.get("tier") == "thorough"
+            lo_, step_ = (16, 16) if "_cbc_" in name else (16, 1) if "XTS" in name else (1, 1)
+            hi_ = 700 if thorough else 300
+            pbs = (0, 1, 8, 15) if "_update_" in name else (0,)
+            pboff = extra.get("pblock_off")
+            judged = notj = nacc = 0
+            why = None
+            badl = None
+            for PB in pbs:
+                for L in range(lo_, hi_ if PB == 0 else 48, step_):
+                    entry = {}
+                    sargs = {}
+                    for k, sg in enumerate(sig):
+                        if sg is None:
+                            continue
+                        isptr = "*" in (sg[2] or "")
+                        nm_ = sg[0] or ("arg%d" % k)
+                        v_ = ("p", nm_, 0) if isptr else (L if ARGROOTS[k] == lenreg else 16 if nm_ == "auth_tag_len" else 0 if nm_ == "aad_len" else None)
+                        if k < 6:
+                            entry[ARGROOTS[k]] = v_
+                        else:
+                            sargs[8 + 8 * (k - 6)] = v_
+
+                    def hook(i, a, size, _sa=sargs, _pb=PB):
+                        if a[0] == "p" and a[1] == "sp" and a[2] in _sa and size == 8:
+                            return _sa[a[2]]
+                        if pboff is not None and a[0] == "p" and a[1] == "context_data" and a[2] == pboff and size == 8:
+                            return _pb
+                        return None
+                    rr = lenrun.Machine(lib, f, entry, mem_hook=hook).run()
+                    if rr.stopped or not rr.returned:
+                        notj += 1
+                        why = why or rr.stopped
+                        continue
+                    judged += 1
+                    for (i, tag, off, size, rw, masked) in rr.accesses:
+                        if tag not in ("in", "out"):
+                            continue
+                        nacc += 1
+                        if masked:
+                            continue
+                        avail = L
+                        if off < 0 or off + size > avail:
+                            badl = badl or (L, PB, i, tag, off, size, rw)
+            out["lr_judged"] = out.get("lr_judged", 0) + judged
+            out["lr_notjudged"] = out.get("lr_notjudged", 0) + notj
+            out["lr_acc"] = out.get("lr_acc", 0) + nacc
+            out["lr_bodies"] = out.get("lr_bodies", 0) + 1
+            if notj and len(out.setdefault("lr_why", [])) < 3:
+                out["lr_why"].append("%s: %s" % (name, why))
+            if badl:
+                L, PB, i, tag, off, size, rw = badl
+                add("R08.9", name, "bounds:len=%d" % L, "with len = %d%s `%s` %s bytes %d..%d of `%s`, which has %d byte(s)" % (L, (" and a pending partial block of %d bytes" % PB) if PB else "", i.text.strip(), "writes" if "w" in rw else "reads", off, off + size - 1, tag, L), i.addr, key[1])
+            else:
+                out["lr_ok"] = out.get("lr_ok", 0) + 1
         # ---- R08.8 mask symmetry of tails
         if len(bufregs) == 2:
             inr = [k_ for k_, v_ in bufregs.items() if v_ == "in"][0]
@@ -284,7 +351,14 @@ def run(chk):
             chk.broke("%s: %s" % (name, e))
     chk.floor("AES entry points", len(cand), 143)
     objs = sorted({lib._by_name[c][0] for c in cand if c in lib._by_name})
-    res = par.map_objects(lib, worker, objs, extra={"cand": cand, "gcm_key_size": gks})
+    pboff = None
+    for M_ in mods.values():
+        ds_ = M_.distructs.get("isal_gcm_context_data")
+        if ds_:
+            for m_ in ds_["members"]:
+                if m_["name"] == "partial_block_length":
+                    pboff = m_["off"]
+    res = par.map_objects(lib, worker, objs, extra={"cand": cand, "gcm_key_size": gks, "tier": chk.tier, "pblock_off": pboff})
     tot = collections.Counter()
     for objname in sorted(res):
         r = res[objname]
@@ -295,8 +369,11 @@ def run(chk):
         tot["indexed_table"] += r.get("indexed_table", 0)
         tot["zero_len"] += r.get("zero_len", 0)
         tot["zero_len_ok"] += r.get("zero_len_ok", 0)
-        for k_ in ("mask_bodies", "masked_stores", "mask_ok"):
+        for k_ in ("mask_bodies", "masked_stores", "mask_ok", "lr_judged", "lr_notjudged", "lr_acc", "lr_bodies", "lr_ok"):
             tot[k_] += r.get(k_, 0)
+        for w_ in r.get("lr_why", []):
+            if len(chk.notes) < 12:
+                chk.notes.append("R08.9 not judged: " + w_)
         for fd in r["findings"]:
             chk.finding(Finding(fd["rule"], fd["obj"], fd["function"], fd["construct"], fd["message"], loc=fd["loc"]))
         for s in r["samples"]:
@@ -309,6 +386,10 @@ def run(chk):
     chk.obligations["R08.4"] = [tot["tagstores"], tot["tagstores"] - len([f for f in chk.findings if f.rule == "R08.4"])]
     chk.obligations["R08.7"] = [tot["zero_len"], tot["zero_len_ok"]]
     chk.obligations["R08.8"] = [tot["mask_bodies"], tot["mask_ok"]]
+    chk.obligations["R08.9"] = [tot["lr_bodies"], tot["lr_ok"]]
+    chk.floor("(body, length) runs followed to a return on the length skeleton", tot["lr_judged"], 20000)
+    chk.floor("accesses through in / out checked against len", tot["lr_acc"], 150000)
+    chk.extra["length_skeleton_runs"] = {"judged": tot["lr_judged"], "not_judged": tot["lr_notjudged"], "accesses_checked": tot["lr_acc"], "bodies": tot["lr_bodies"]}
     chk.floor("opmask-confined output stores seen", tot["masked_stores"], 100)
     chk.floor("bodies with (in, out, len) judged for the zero-length call", tot["zero_len"], 80)
     chk.floor("tag stores judged", tot["tagstores"], 60)
@@ -317,6 +398,63 @@ def run(chk):
     chk.extra["stores_with_unknown_address"] = tot["unknown"]
     chk.extra["masked_fixed_extent_loads_with_constant_mask"] = tot["masked"]
     chk.extra["indexed_reads_of_gcm_key_table_not_decided"] = tot["indexed_table"]
+    # ---- R08.10 hash kernels: block-granular bounds on the length skeleton
+    import c01
+    hash_objs = sorted(o_.name for o_ in lib.objs if (o_.src or "").split("/")[0] in c01.DIRS and "_mb_mgr_" in o_.name)
+    r1 = par.map_objects(lib, c01.worker, hash_objs, extra={"kernels": {}, "ptr_region": {}})
+    kernels = {}
+    for on_, rr_ in r1.items():
+        for k_ in rr_["callees"]:
+            nm_ = lib.entries_by_key.get(tuple(k_))
+            if nm_:
+                kernels[nm_] = tuple(k_)
+    regions = {}
+    for src_, M_ in mods.items():
+        if not re.match(r"^(sha1|sha256|sha512|md5|sm3)_mb/\w+_ctx_(sse|avx2)\.c$", src_):
+            continue
+        for n_, ds in M_.distructs.items():
+            ms = {m["name"]: (m["off"], m["size"]) for m in ds["members"]}
+            if "data_ptr" in ms and "digest" in ms and "_MB_ARGS_" in n_:
+                regions[src_.split("/")[0].split("_")[0]] = ms["data_ptr"]
+    nk = nkj = nka = 0
+    for kname, kkey in sorted(kernels.items()):
+        algo = kname.split("_")[0]
+        reg = regions.get(algo)
+        if not reg:
+            continue
+        bsz = 128 if algo == "sha512" else 64
+        fk = lib.func(kkey)
+        nk += 1
+        badk = None
+        whyk = None
+        for nblk in (1, 2, 3, 4):
+            def hookk(i, a, size, _reg=reg):
+                if a[0] == "p" and a[1] == "args" and _reg[0] <= a[2] < _reg[0] + _reg[1] and size == 8 and (a[2] - _reg[0]) % 8 == 0:
+                    return ("p", "lane%d" % ((a[2] - _reg[0]) // 8), 0)
+                return None
+            rrk = lenrun.Machine(lib, fk, {"RDI": ("p", "args", 0), "RSI": nblk}, mem_hook=hookk).run()
+            if rrk.stopped or not rrk.returned:
+                whyk = whyk or rrk.stopped
+                continue
+            nkj += 1
+            for (i, tag, off, size, rw, masked) in rrk.accesses:
+                if not tag.startswith("lane"):
+                    continue
+                nka += 1
+                if masked:
+                    continue
+                if off < 0 or off + size > nblk * bsz:
+                    badk = badk or (nblk, i, tag, off, size)
+        chk.obligation("R08.10", badk is None, key=kname, sample={"kernel": kname, "block_size": bsz})
+        if whyk and len(chk.notes) < 16:
+            chk.notes.append("R08.10 %s not judged for some block counts: %s" % (kname, whyk))
+        if badk:
+            nblk, i, tag, off, size = badk
+            chk.finding(Finding("R08.10", fk.obj.name, kname, "block-bounds", "with %d block(s) per lane `%s` reads bytes %d..%d of the buffer of %s, which has %d bytes" % (nblk, i.text.strip(), off, off + size - 1, tag, nblk * bsz), loc=fk.obj.line_of(fk.sec, i.addr)))
+    chk.floor("hash kernels followed on the length skeleton", nk, 20)
+    chk.floor("(kernel, block count) runs judged", nkj, 60)
+    chk.floor("lane-buffer accesses checked", nka, 1000)
+    chk.extra["hash_kernel_runs"] = {"kernels": nk, "judged": nkj, "lane_accesses": nka}
     # ---- R08.3 rolling hash window (IR)
     M = mods.get("rolling_hash/rolling_hash2.c")
     F = M.functions.get("_rolling_hash2_run") if M else None
